@@ -224,26 +224,18 @@ theorem C31_cex_queryable_overflow : ¬ C31_queryable_full := by
   have := h ['9','2','2','3','3','7','2','0','3','7','S','e','c'] _ rfl
   revert this; decide
 
-/-- observation: `4H` is never chosen because `2H` is tested first -/
-theorem C31_obs_4H_unreachable (cd : CandleDuration) (hs : cd.suffix ≠ .M) :
-    queryableTimeframe cd ≠ (['4','H'], 4 * hour) := by
-  intro h
-  unfold queryableTimeframe at h
-  simp only [hs, ne_eq, not_false_eq_true, if_true] at h
-  split at h
-  · rename_i tf hf
-    subst h
-    have h4 := List.find?_some hf
-    simp only [beq_iff_eq] at h4
-    -- then 2H, which comes earlier in the reversed table, also divides
-    have h2 : cd.duration.tmod (2 * hour) = 0 := by
-      have d4 := Int.dvd_of_tmod_eq_zero h4
-      apply Int.tmod_eq_zero_of_dvd
-      exact Int.dvd_trans (by decide) d4
-    revert hf
-    simp [timeframes, List.find?, h2, day, Mkts.Extracted.utils_Day]
-    split <;> simp
-  · revert h; decide
+/-- the table is in strictly ascending order of duration (after `fix: list 2H before 4H`), which
+    is what the scan from the end relies on -/
+theorem C31_timeframes_ascending : timeframes.Pairwise (fun a b => a.2 < b.2) := by decide
+
+/-- every catalog timeframe is its own query timeframe (before the repair `4H` was answered from
+    `2H`: finding C08-F27) -/
+theorem C31_queryable_catalog :
+    ∀ tf ∈ timeframes, ∀ str mult, queryableTimeframe ⟨str, tf.2, .H, mult⟩ = tf := by
+  intro tf htf str mult
+  have : tf ∈ timeframes := htf
+  simp only [timeframes, Mkts.Extracted.utils_Timeframes, List.map, List.mem_cons, List.mem_nil_iff, or_false] at this
+  rcases this with h | h | h | h | h | h | h | h | h | h | h <;> subst h <;> simp only [queryableTimeframe] <;> decide
 
 /-! ## parse / print stability -/
 
